@@ -8,6 +8,7 @@ mod checks;
 mod engine;
 mod gen;
 mod json;
+mod props;
 mod rng;
 mod run;
 mod spec;
@@ -85,6 +86,12 @@ fn main() {
         "shrink" => checks::shrink_cmd(&args),
         "specdump" => checks::specdump(&args),
         "bcdump" => checks::bcdump(&args),
+        "c14" => props::c14(&args),
+        "c15" => props::c15(&args),
+        "c09" => props::c09(&args),
+        "c09replay" => props::c09_replay(&args),
+        "c18" => props::c18(&args),
+        "c18replay" => props::c18_replay(&args),
         _ => {
             eprintln!("usage: hv <diff|one|gen|...> [--key value]...");
             2
